@@ -121,19 +121,18 @@ def rand_hop_limit(r: random.Random) -> int:
     return r.randint(0, 255)
 
 
-def rand_mib(r: random.Random, *, beacon=True) -> dict:
+def rand_mib(r: random.Random, *, beacon=True, dpl=(1, 2, 8, 16)) -> dict:
     mib: dict = {}
     if r.random() < 0.7:
         mib["itsGnAreaForwardingAlgorithm"] = r.choice(["SIMPLE", "CBF", "UNSPECIFIED"])
     if r.random() < 0.5:
-        mib["itsGnDPLLength"] = r.choice([1, 2, 8, 16])
+        mib["itsGnDPLLength"] = r.choice(dpl)
     if r.random() < 0.5:
         mib["itsGnDefaultHopLimit"] = r.choice([1, 2, 5, 10])
     if r.random() < 0.5:
         mib["itsGnLifetimeLocTE"] = r.choice([2, 5, 20])
-    if r.random() < 0.6:
-        mib["itsGnLocationServiceRetransmitTimer"] = r.choice([100, 1000, 2000])
-        mib["itsGnLocationServiceMaxRetrans"] = r.choice([0, 1, 3, 10])
+    mib["itsGnLocationServiceRetransmitTimer"], mib["itsGnLocationServiceMaxRetrans"] = r.choice(
+        [(100, 0), (100, 1), (100, 3), (100, 10), (1000, 0), (1000, 1), (1000, 2), (2000, 1), (300, 3)])
     if r.random() < 0.3:
         mib["itsGnCbfMinTime"], mib["itsGnCbfMaxTime"] = r.choice([(1, 100), (10, 50)])
     if r.random() < 0.3:
